@@ -44,16 +44,12 @@ def _redshift_histogram(patch: Patch, binning: Binning) -> NDArray:
     """Worker function that computes a redshift histgram from a given patch and
     binning."""
     redshifts = patch.redshifts
-    # numpy histogram uses the bin edges as closed intervals on both sides
-    if binning.closed == "right":
-        mask = redshifts > binning.edges[0]
-    else:
-        mask = redshifts < binning.edges[-1]
-
-    weights = patch.weights[mask] if patch.has_weights else None
-
-    counts, _ = np.histogram(redshifts[mask], binning.edges, weights=weights)
-    return counts.astype(np.float64)
+    weights = patch.weights if patch.has_weights else None
+    # apply the same bin membership rule as the trees, (lo, hi] or [lo, hi)
+    edges = binning.edges
+    bin_idx = np.digitize(redshifts, edges, right=(binning.closed == "right"))
+    counts = np.bincount(bin_idx, weights=weights, minlength=len(edges) + 1)
+    return counts[1 : len(edges)].astype(np.float64)
 
 
 def resample_jackknife(observations: NDArray, patch_rows: bool = True) -> NDArray:
